@@ -69,10 +69,26 @@ CLAIMED = {
              "least-squares projection (Gram matrices, bordered solve) tied by exact differential execution.",
         design="7/C05",
         technique="Coq proof (knot-vector algebra, certified inverse, tolerance guard) + correspondence and exact deviation oracle by vm_compute",
-        note="Polynomial curves only: the weighted (rational) projection of the library is lossy (known finding K1) and is kept "
+        note="Continuous-projection theorems (normal equations, error = squared residual, interpolation and multiplier form of the "
+             "constrained fit) are in Props/C11.v. Polynomial curves only: the weighted (rational) projection of the library is lossy (known finding K1) and is kept "
              "out of the model. 'Succeeds whenever exactly removable' is decided per case (undo stream), not proved "
              "(needs positive-definiteness of the Gram matrix). tolerance=None interpolation is required for degree >= 1 "
              "only (a degree-0 piecewise constant cannot interpolate both ends of a merged span)."),
+    "C06": dict(
+        text="Unbounded theorems (Props/C06.v): on a Bezier knot vector the Cox-de Boor basis is the Bernstein basis (closed "
+             "form, every degree); the model's elevation matrix preserves the curve at every u for one step and for t steps, "
+             "scalar and vector-valued control points; a reduction accepted under tolerance t certifies error <= t. Decided "
+             "per generated case inside Coq: degree +t, every distinct knot's multiplicity +t, exact function equality "
+             "(oracle) for Bezier, multi-span, repeated-knot, full-multiplicity and rational curves, method and setter form; "
+             "t <= 0 refused; elevate-then-reduce restores the curve exactly (tuple equality); generic reduction refused "
+             "with ValueError and unchanged state under the default tolerance, bounded exact squared deviation under a "
+             "given tolerance, interpolation at the remaining knots for tolerance=None. Model of split/elevate/remove and "
+             "of the projection tied by exact differential execution.",
+        design="7/C06",
+        technique="Coq proof (Bernstein form of the Bezier basis, elevation identity by induction) + correspondence and exact function oracle by vm_compute",
+        note="The multi-span elevation (split, elevate pieces, remove the inserted knots by least squares) is covered by the "
+             "per-case oracle; its for-all theorem would need the exactness of that removal (positive-definite Gram "
+             "matrix), not proved. Rational reduction: K1."),
     "C07": dict(
         text="Theorems (Props/C07.v): pieces of the knot-vector split are well-formed; the refinement matrix used by split "
              "(insertion of every cut up to multiplicity degree+1) preserves the curve at every u (from the C04 development). "
@@ -88,20 +104,49 @@ CLAIMED = {
              "oracle, not yet by a for-all theorem (Proofs/SplitProofs.v in progress); join has no executable model yet "
              "(it goes through degree elevation and knot_clean), so its correspondence is oracle-only. Known finding K6: a "
              "rational join keeps the junction knot with full multiplicity."),
+    "C10": dict(
+        text="Unbounded theorems (Props/C10.v), for EVERY n: the interpolatory weights the model computes (inverse of the "
+             "Bernstein collocation matrix, certified) integrate the whole Bernstein basis and every monomial of degree < n "
+             "exactly and sum to 1; closed/open nodes are the advertised equally spaced, strictly increasing points of [0,1]; "
+             "every literal entry of the source's closed/open Newton-Cotes tables (regenerated from /repo on every run) "
+             "equals the computed rule; and for every sequence of requests the answer to any request equals the answer of a "
+             "fresh process (memo tables never change an answer). Tie: sessions of requests in random order inside one "
+             "interpreter compared with the model run over the same session; each returned rule is re-checked for exactness "
+             "in Coq; Integrate.scalar (default, closed, open rules) compared with sum_i P_i (u_(i+p+1)-u_i)/(p+1).",
+        design="7/C10",
+        technique="Coq proof (Bernstein moment identities, hockey-stick, invariant over request histories) + correspondence by vm_compute",
+        note="Chebyshev and Gauss-Legendre rules have irrational nodes and exist only as floats in the library: validated "
+             "numerically (exactness order, ordering, weight sum, 1e-8), not proved; the literal Fraction entries of their "
+             "tables likewise. Integrate.lenght and the float methods of Integrate.scalar are float tests."),
     "C11": dict(
         text="Decided per generated case inside Coq from the implementation's output: exact moments int (C-D) M_i du = 0 for every "
              "basis function of the target space (open Newton-Cotes of sufficient order per span - exact for the polynomial "
              "pieces), reproduction with error 0 for in-space sources (refined by insertion/elevation), returned error == kappa * "
              "exact integral of the squared residual of the worst coordinate (kappa = 1, or 1/2 with nodes), error >= 0 and 0 iff "
              "residual 0, interpolation at the nodes and residual moments in the row space of the collocation matrix "
-             "(orthogonal to every element vanishing at the nodes), source unchanged. Theorems (Props/C11.v): certified inverse, "
-             "normal equations / orthogonality / minimality of the discrete least-squares solve. Model of func2func tied by "
+             "(orthogonal to every element vanishing at the nodes), source unchanged. Unbounded theorems (Props/C11.v) about the model: normal equations "
+             "GG T = GF, returned error = <x,x> - <Tx,Tx> (Pythagoras), reproduction of sources that lie in the target space "
+             "at the quadrature nodes (T = R^T for refinements, T S^T = I), interpolation at the nodes, Lagrange-multiplier form "
+             "of the constrained optimum and orthogonality to every element vanishing at the nodes, constrained error = 1/2 "
+             "squared distance, too many nodes refused. Model of func2func tied by "
              "exact differential execution; the quadrature rule and span scaling it uses are read from the source.",
         design="7/C11",
         technique="Coq proof (certified linear solves, normal equations) + correspondence and exact orthogonality oracle by vm_compute",
-        note="The lift of the normal equations to the model's Gram matrices (continuous projection) is in Proofs/LSProofs.v "
-             "(in progress). Known finding K7: the quadrature has p+q+3 nodes, so for |p-q| >= 3 the returned error is "
+        note="The theorems speak about the model's quadrature inner product; that it is the exact L2 product of the pieces is "
+             "decided per case by the oracle (open rule of sufficient order). Known finding K7: the quadrature has p+q+3 nodes, so for |p-q| >= 3 the returned error is "
              "not the exact integral; such pairs are outside the generated stream. Rational curves: K1."),
+    "C12": dict(
+        text="Unbounded theorems (Props/C12.v) about the model's fit_function (collocation rows from the model's basis "
+             "evaluation - proved equal to the Cox-de Boor / rational specification in C01/C02 - and the certified normal-"
+             "equation solve): residual orthogonal to every column of the collocation matrix, minimality of the sum of "
+             "squares over ALL coefficient vectors, exact reproduction of data sampled from the space, interpolation when "
+             "len(points) = npts, fewer points refused. Tie and per-case oracle: fit_points / fit_function of the "
+             "implementation (explicit, default and fit_function's own nodes; weights on/off; dimension 1-2) compared "
+             "with the model and, independently, with the normal equations evaluated from the specification's basis.",
+        design="7/C12",
+        technique="Coq proof (normal equations, Pythagoras, certified inverse) + correspondence by vm_compute",
+        note="Non-unisolvent node sets make the normal matrix singular; the implementation's ZeroDivisionError is accepted "
+             "exactly when the model certifies singularity. Float nodes (Chebyshev defaults for float knots) are outside the model."),
     "C17": dict(
         text="Unbounded theorems (Props/C17.v), for all well-formed operands whose distinct knots are >= 1e-6 apart: U|V has "
              "degree max(p,q) and, for every value x, multiplicity max of the degree-lifted multiplicities (per-knot maximum at "
